@@ -262,6 +262,32 @@ pub(crate) mod verif_support {
                 i
             }
         }
+        /// outcome number for node `i` with planned payload `u`: truthy payloads are the integer u; the falsy payload 0
+        /// is spelled differently per operand (0, 0.0, -0.0 - all falsy, all distinguishable), so that "the first falsy
+        /// value" and "the last falsy value" are different results
+        pub fn outcome_number(i: usize, u: u64) -> serde_json::Number {
+            if u != 0 {
+                serde_json::Number::from(u)
+            } else {
+                match i % 3 {
+                    0 => serde_json::Number::from(0u64),
+                    1 => serde_json::Number::from_f64(0.0).unwrap(),
+                    _ => serde_json::Number::from_f64(-0.0).unwrap(),
+                }
+            }
+        }
+        /// is `n` exactly the outcome number of node `i` with payload `u`?
+        pub fn is_outcome_number(n: &serde_json::Number, i: usize, u: u64) -> bool {
+            if u != 0 {
+                n.as_u64() == Some(u)
+            } else {
+                match i % 3 {
+                    0 => n.is_u64() && n.as_u64() == Some(0),
+                    1 => n.is_f64() && n.as_f64().map(|x| x == 0.0 && x.is_sign_positive()).unwrap_or(false),
+                    _ => n.is_f64() && n.as_f64().map(|x| x == 0.0 && x.is_sign_negative()).unwrap_or(false),
+                }
+            }
+        }
         pub fn register_num(v: &Value, class: u8, out: *const Value, u: u64) -> usize {
             let i = register(v, class, out);
             unsafe {
